@@ -409,15 +409,22 @@ pub fn run(ctx: &Ctx, rep: &Report) {
                 match r {
                     Ok(p) if pos_close((p.latitude, p.longitude), (c.1, c.2)) => {}
                     other => {
-                        // several airports may legitimately share a code; accept any airport carrying exactly this code
+                        // the codes of the embedded table are unique keys on the pinned tree; when two records carry one code
+                        // the parser can honour only one of them: the other record's code no longer yields its position
                         let alt = apts.iter().any(|a| (a.icao == c.0 || a.iata == c.0) && other.as_ref().is_ok_and(|p| pos_close((p.latitude, p.longitude), (a.lat, a.lon))));
-                        if !alt {
-                            rep.violation(
-                                &format!("airport-code:{}", c.3),
-                                format!("reference {:?} ({} code of the airport at {},{}) gives {:?}", c.0, c.3, c.1, c.2, other.map(|p| (p.latitude, p.longitude))),
-                                json!({"kind": "airport", "code": c.0, "lat": c.1, "lon": c.2}),
-                            );
-                        }
+                        rep.violation(
+                            &format!("airport-code:{}{}", c.3, if alt { ":ambiguous" } else { "" }),
+                            format!(
+                                "reference {:?} ({} code of the airport at {},{}) gives {:?}{}",
+                                c.0,
+                                c.3,
+                                c.1,
+                                c.2,
+                                other.map(|p| (p.latitude, p.longitude)),
+                                if alt { " (another record of airports.json carries the same code)" } else { "" }
+                            ),
+                            json!({"kind": "airport", "code": c.0, "lat": c.1, "lon": c.2}),
+                        );
                     }
                 }
             }
